@@ -18,6 +18,10 @@ def run(tier, corrupt=0):
     n, procs, shards = (1000, 16, 12) if tier == "quick" else (30000, 16, 16)
     lines = iter_common.record_parallel(c, "bounded", n, procs, corrupt=corrupt,
                                        extra=["--work-budget", 6_000_000 if tier == "quick" else 400_000_000])
+    # both edges of the contract, systematically: bounds straddling the exact distance D and D + 24 h
+    sweep = iter_common.record_sweep(c, "sweep-bounded", 24 if tier == "quick" else 2, procs=8)
+    c.setv("contract_edge_sweep_events", len(sweep))
+    lines = iter_common.renumber(lines + sweep)
     verdicts, nint, nruns, nontrivial = iter_common.validate(c, lines, shards, "interval-size bound")
     c.mismatches = [m for m in c.mismatches if m["case"]["verdict"] in WANTED]
     approx = 0
